@@ -81,13 +81,11 @@ var famFolds = &family{
 	eval: func(r *runner, i int64) {
 		n := int64(numFoldExprs())
 		src := strings.ReplaceAll(foldPositions[i/n], "E", foldExpr(int(i%n)))
-		sub := 0
 		for _, in := range r.full {
 			if in.spec.kind != "value" || in.spec.comments != in.spec.comfort {
 				continue
 			}
-			r.exec("e-failing-constant-folds", i, sub, in, src, "")
-			sub++
+			r.exec("e-failing-constant-folds", i, 0, in, src, "")
 		}
 	},
 }
